@@ -744,11 +744,14 @@ impl<W: Write + io::Seek> ZipWriter<W> {
             uncompressed_size: file.size(),
         };
 
+        // (Before the entry is begun, so that a refusal leaves nothing behind.)
+        let raw_reader = file.get_raw_reader()?;
+
         self.start_entry(name, options, Some(raw_values))?;
         self.writing_to_file = true;
         self.writing_raw = true;
 
-        io::copy(file.get_raw_reader(), self)?;
+        io::copy(raw_reader, self)?;
 
         Ok(())
     }
